@@ -257,6 +257,8 @@ def r2_r3_r4(ctx, retsets):
         fams.append((fam, L["bound"]))
         # failure arm: undo calls inside this apply loop's body
         undos = [c for c in fn.calls() if c.callee in UNDO and fn.dom(up, c)]
+        # a shared roll-back helper is handed 0 for the families that have not been applied yet: a loop from 0 to 0 undoes nothing
+        undos = [u for u in undos if not any(es.in_loop_body(M2, u) and M2["bound"] == ("c", 0) and M2["init"] == "#0" for M2 in loops)]
         got = set()
         for u in undos:
             inner = [M2 for M2 in loops if es.in_loop_body(M2, u) and M2["header"] != L["header"]]
